@@ -362,11 +362,16 @@ class DefaultOperatorResolver(OperatorResolver):
                     "The right-hand argument of `**` must be a positive integer.",
                 )
             power_term = next(iter(power))
+            try:
+                power_value = ast.literal_eval(power_term.factors[0].expr)
+            except (ValueError, SyntaxError):
+                power_value = None
             if (
                 not len(power_term.factors) == 1
                 or not power_term.factors[0].token
                 or power_term.factors[0].token.kind is not Token.Kind.VALUE
-                or not isinstance(ast.literal_eval(power_term.factors[0].expr), int)
+                or not isinstance(power_value, int)
+                or power_value < 1
             ):
                 raise exc_for_token(
                     power_term.factors[0].token or Token(),
